@@ -73,6 +73,12 @@ CHECKS["C10"] = dict(
     text="Saves are interrupted at a chosen file-system operation (everything unsynced before it is dropped), the store is reopened and TLC requires every replica to show either the state before or the state after the interrupted save, and every earlier acknowledged save; for the Pebble-backed store an error is injected at each KV call of a save, which must then fail or be completely readable.",
     note=LS_NOTE + " Crash points are sampled (operation 1..40 of a save), not enumerated per save; Tan I/O-error injection at FS level is not done (Tan panics in a goroutine).")
 
+CHECKS["C12"] = dict(
+    category="model_checking", design_ref="5 C12", engine="tlc+rqsim",
+    technique="TLA+ protocol spec (Requests.tla) as oracle; TLC validation of seeded interleavings of the critical sections of the real pending-request tables",
+    text="Requests.tla states which terminal result (and Committed notification) a client may read for an accepted request given what the workers did (applied with which value / rejected / dropped / ready-to-read + applied index / deadline passed / table closed); TLC judges every value read from the result channels of the real pendingProposal / pendingReadIndex / pendingConfigChange / pendingSnapshot / pendingRaftLogQuery objects (with the real queues and sync.Pool reuse, Release before and after reading) under thousands of seeded interleavings of client, step-worker, apply-worker and stopper steps, and requires exactly one terminal result per accepted request once the shard is stopped and the clocks have run.",
+    note="Trusted: TLC; the rqsim driver (harness/root/rqsim_test.go). Interleavings are sampled, each mutex-protected method is one step; proposalShard.propose is one step.")
+
 NOT_APPLICABLE = {
     "C13": "encode/decode fidelity and size arithmetic of hand-written codecs over the numeric input space: no state/transition structure for a TLA+ specification to describe (DESIGN.md section 6)",
 }
@@ -130,6 +136,8 @@ def main():
              "kind_free_text": "TLC model checking of MCRSM + TLC trace validation (RSMTrace) of real rsm.StateMachine instances driven by harness/rsm/smsim_test.go"},
             {"name": "tlc+lssim", "path": "/verif/lib/logstore.py", "serves_properties": ["C09", "C10"],
              "kind_free_text": "TLC trace validation (LogStoreTrace) of the real log stores driven by harness/logdb/lssim_test.go incl. crash and I/O-error injection"},
+            {"name": "tlc+rqsim", "path": "/verif/lib/c12.py", "serves_properties": ["C12"],
+             "kind_free_text": "TLC trace validation (RequestsTrace) of the real request tables driven by harness/root/rqsim_test.go"},
             {"name": "tlc+elsim", "path": "/verif/lib/c19.py", "serves_properties": ["C19"],
              "kind_free_text": "TLC model checking of MCEntryLog + TLC trace validation (EntryLogTrace) of the real entryLog/LogReader driven by harness/logdb/elsim_test.go"},
         ],
